@@ -208,7 +208,7 @@ def pcacov(C, is_inverse=False, eps=1e-5):
     return U, l
 
 
-def ipca(B, U_a, l_a, n_a, m_a=None, f=1.0, eps=1e-10):
+def ipca(B, U_a, l_a, n_a, m_a=None, f=1.0, eps=1e-10, centred=None):
     r"""
     Perform Incremental PCA on the eigenvectors ``U_a``, eigenvalues ``l_a`` and
     mean vector ``m_a`` (if present) given a new data matrix ``B``.
@@ -263,7 +263,9 @@ def ipca(B, U_a, l_a, n_a, m_a=None, f=1.0, eps=1e-10):
     # total number of samples
     n = n_a + n_b
 
-    if m_a is not None and not np.all(m_a == 0):
+    if centred is None:
+        centred = m_a is not None and not np.all(m_a == 0)
+    if centred:
         # centred ipca; compute mean of new data
         m_b = np.mean(B, axis=0)
         # compute new mean
